@@ -32,6 +32,8 @@ KERNEL_SPECS = [
     ("additive_chi2", "additive_chi2", None, True),
     ("chi2_g", "chi2", {"gamma": 0.5}, True),
     ("poly_c0", "poly", {"degree": 2, "coef0": 0, "gamma": 0.5}, False),     # a zero-valued parameter that differs from the default
+    ("poly_nog", "poly", {"degree": 2, "coef0": 0.5}, False),                # no gamma given: scikit-learn's default 1/n_features applies
+    ("sigmoid_nog", "sigmoid", {"coef0": 0.3}, False),
     ("callable", "callable", None, False),
     ("pre_int", "precomputed", None, False),                                 # integer-typed symmetric matrix
     ("pre_tiny", "precomputed", None, False),                                # PSD matrix of magnitude 1e-10
